@@ -373,7 +373,19 @@ def sampler_case(ck, d, rng):
         prior = [x / sum(w) for x in w]
     from deephyper.skopt.space import Categorical
 
-    dim = mk_dim(s) if prior is None else Categorical(list(s["cats"]), prior=prior, transform=s["tr"])
+    # half of the time the dimension object has a history: built with another transformer and switched 1-3 times,
+    # ending at s["tr"] (what normalize_dimensions / the samplers' save-restore do); it must sample like a fresh one
+    from .c09 import allowed_transforms
+
+    path = [s["tr"]]
+    if rng.random() < 0.5:
+        path = [rng.choice(allowed_transforms(s)) for _ in range(rng.choice([1, 2, 3]))] + [s["tr"]]
+    s0 = dict(s, tr=path[0])
+    dim = (mk_dim(s0) if s0["tr"] != "string" else Categorical(list(s["cats"]), transform="string")) if prior is None \
+        else Categorical(list(s["cats"]), prior=prior, transform=path[0])
+    for t in path[1:]:
+        dim.set_transformer(t)
+    ck.count("sampler-history-len=%d" % (len(path) - 1))
     m = rng.choice([1, 3, 8])
     n_cat = len(s["cats"]) if s["k"] == "cat" else 0
     pool = [0.0, float(np.nextafter(1.0, 0.0)), 0.5, 1 / 3, 0.25, 0.75]
@@ -389,7 +401,7 @@ def sampler_case(ck, d, rng):
     uses_int = s["k"] == "int" and s["prior"] == "uniform"
     ks = [rng.choice([s["lo"], s["hi"], rng.randint(s["lo"], s["hi"])]) for _ in range(m)] if uses_int else None
     out = Out(lambda: dim.rvs(n_samples=m, random_state=scripted_state(us, ks)))
-    case = {"kind": "sampler", "dim": s, "prior": prior, "us": us, "ks": ks}
+    case = {"kind": "sampler", "dim": s, "prior": prior, "us": us, "ks": ks, "transform_history": path}
     ck.case(case)
     ck.count("sampler:" + dimsig(s))
     # the draws as the model sees them
@@ -707,6 +719,81 @@ def law_case(ck, d, seed, n):
         shutil.rmtree(tmp, ignore_errors=True)
 
 
+def rvs_history_case(ck, seed):
+    """ONE converted Space object: seeded Space.rvs must not depend on earlier calls (seeded or not) nor on
+    set_transformer switches that were undone, and after a switch it must equal a fresh space built with that
+    transformer; every sample a member"""
+    import random
+
+    from deephyper.hpo._problem import convert_to_skopt_space
+    from deephyper.skopt.space import Categorical, Integer, Real, Space
+
+    rng = random.Random(seed)
+    problem, descs = law_problem(rng)
+    surrogate = rng.choice(["RF", "GP"])
+    sp = convert_to_skopt_space(problem.space, surrogate_model=surrogate)
+    n = 200
+    case = {"kind": "rvs-history", "seed": seed, "surrogate": surrogate}
+    ck.case(case)
+
+    def fresh(transforms):
+        dims = []
+        for dm, t in zip(convert_to_skopt_space(problem.space, surrogate_model=surrogate).dimensions, transforms):
+            if isinstance(dm, Categorical):
+                dims.append(Categorical(dm.categories, prior=dm.prior, transform=t, name=dm.name))
+            else:
+                dims.append(type(dm)(dm.low, dm.high, prior=dm.prior, transform=t, name=dm.name))
+        return Space(dims)
+
+    def draw(space):
+        o = Out(lambda: space.rvs(n, random_state=seed))
+        return ("raises " + err_kind(o.exc)) if o.exc is not None else [[tag(v) for v in row] for row in o.val]
+
+    def fail(clause, what, detail=None):
+        ck.fail(f"C10|reuse-independent|Space.rvs|{clause}", what, case, detail)
+
+    initial = sp.get_transformer()
+    r0 = draw(sp)
+    if r0 != draw(fresh(initial)):
+        fail("fresh", "two spaces converted from the same problem sample differently with the same seed")
+    Out(lambda: sp.rvs(rng.choice([1, 5])))  # an unseeded call in between
+    if draw(sp) != r0:
+        fail("repeat", "a seeded Space.rvs depends on earlier calls")
+    steps = rng.choice([1, 2, 3])
+    for _ in range(steps):
+        kind = rng.choice(["normalize", "list", "dim"])
+        trs = sp.get_transformer()
+        if kind == "normalize":
+            trs = ["normalize"] * len(trs)
+            sp.set_transformer("normalize")
+        elif kind == "list":
+            trs = [rng.choice(["normalize", t]) for t in initial]
+            sp.set_transformer(list(trs))
+        else:
+            j = rng.randrange(len(trs))
+            trs[j] = "normalize" if trs[j] != "normalize" else initial[j]
+            sp.dimensions[j].set_transformer(trs[j])
+        ck.count("rvs-history:" + kind)
+        got = draw(sp)
+        want = draw(fresh(trs))
+        if got != want:
+            fail("switch:" + kind, "after set_transformer a seeded Space.rvs differs from a fresh space with these transformers",
+                 {"transforms": trs})
+        if isinstance(got, list):
+            names = sp.dimension_names
+            for row in got[:50]:
+                for nm, tv in zip(names, row):
+                    dsc = descs[nm]
+                    v = untag(tv)
+                    ok = (tv in [tag(c) for c in dsc["choices"]]) if dsc["kind"] == "cat" else dsc["lo"] <= v <= dsc["hi"]
+                    if not ok:
+                        fail("support", "a sample drawn after a set_transformer switch is not a member", {"name": nm, "value": tv})
+                        break
+    sp.set_transformer(list(initial))
+    if draw(sp) != r0:
+        fail("restore", "after restoring the saved transformers a seeded Space.rvs differs from the first call")
+
+
 def corpus_cases():
     dd = common.VERIF / "corpus" / "C10"
     for f in sorted(dd.glob("*.json")):
@@ -746,7 +833,9 @@ def run_corpus_case(ck, d, case):
 def run(ck):
     ck.rule = ("declaration sequences (tuples int/float x uniform/log-uniform, mixed, lists str/bool/int/float/mixed, constants, "
                "ConfigSpace objects incl. weighted categoricals; duplicate names, malformed shorthands) x surrogate family; "
-               "samplers of generated dimensions (every kind x transform, categorical priors) under scripted streams; "
+               "samplers of generated dimensions (every kind x transform, categorical priors; half of them after 1-3 set_transformer "
+               "switches on the same object) under scripted streams; seeded Space.rvs on one object across repeated calls and "
+               "set_transformer switches vs fresh objects; "
                "law problems with every hyperparameter kind x 4 sampling paths x seeds, N samples per path; "
                "non-trivial = at least one accepted declaration / any sampler or law case")
     ck.assumptions = [
@@ -769,6 +858,8 @@ def run(ck):
             malformed_case(ck, d, rng)
         for _ in range(ck.pick(500, 6000)):
             sampler_case(ck, d, rng)
+        for _ in range(ck.pick(25, 200)):
+            rvs_history_case(ck, rng.randint(0, 2 ** 20))
         for _ in range(ck.pick(2, 10)):
             law_case(ck, d, rng.randint(0, 2 ** 20), n)
 
@@ -777,6 +868,8 @@ def replay(ck, case):
     with ck.driver() as d:
         if case.get("kind") in ("normalized-law", "weights"):
             run_corpus_case(ck, d, case)
+        elif case.get("kind") == "rvs-history":
+            rvs_history_case(ck, case["seed"])
         elif case.get("kind") == "law" or "hyperparameter" in case:
             law_case(ck, d, case.get("seed", 0), case.get("n", 20000))
         elif "hp" in case:
